@@ -74,6 +74,21 @@ def run(ctx):
                 inp = path_from_parents(parts[4:], int(parts[1]), int(parts[2])) + [int(parts[3])]
             ctx.violation("behaviour:%s:%s" % ("+".join(d["macros_used"]), inp), "the program with macros and its textual expansion compile to machines that are not bisimilar (%s)" % res[:60],
                           {"program_with_macros": a, "program_inlined": b, "flags": fl, "input": inp, "broken": "certificate Bisim.dfa_equiv_cert"}, found_input=inp is not None)
+    # ---- known finding: one witness (a hook parameter named like a global macro); the generator never produces the shape
+    WA = 'out int x = 0; hook h1; macro foo() { "Z"; x = [x * 0 + 9]; } macro bar(hook foo) { "a"; foo(); "b"; } parser { bar(h1); }'
+    WB = 'out int x = 0; hook h1; macro foo() { "Z"; x = [x * 0 + 9]; } parser { "a"; h1(); "b"; }'
+    WI = export.Interner()
+    wa, wb = nm.compile_source(WA, ["-O1"], interner=WI), nm.compile_source(WB, ["-O1"], interner=WI)
+    if wa["verdict"] == "ok" and wb["verdict"] == "ok":
+        wres = mach.run_machk([mach.task_bisim(wa["machines"]["post_optimize"], wb["machines"]["post_optimize"])])[0]
+        if wres != "ok":
+            ctx.violation("behaviour:witness:hook-parameter-shadowed-by-global-macro",
+                          "inside a macro a call through a hook parameter named like a global macro expands the macro instead of calling the hook argument (%s)" % wres[:40],
+                          {"program_with_macros": WA, "program_inlined": WB, "flags": ["-O1"], "input": [97, 90], "broken": "certificate Bisim.dfa_equiv_cert"}, found_input=True)
+        else:
+            ctx.log("witness hook-parameter-shadowed-by-global-macro: the finding no longer reproduces")
+    else:
+        ctx.log("witness hook-parameter-shadowed-by-global-macro: verdicts %s / %s" % (wa["verdict"], wb["verdict"]))
     # in-Coq certificates for a sample
     items = []
     small = [p for p in pairs if len(p[4]["states"]) <= 30]
